@@ -772,6 +772,52 @@ def dead_nested_kinds(ast):
     return out
 
 
+IMPLICIT_LOCALS = ("EA", "i", "j", "k")
+
+
+def local_names(ast, params=()):
+    """source-level local variables of a behaviour / routine body: declared names and the dialect's implicit locals that occur"""
+    out = set()
+    for n in subterms(ast):
+        if isinstance(n, tuple) and n:
+            if n[0] == 'decl':
+                out.add(n[2])
+            elif n[0] == 'id' and n[1] in IMPLICIT_LOCALS:
+                out.add(n[1])
+    return out - set(params)
+
+
+def used_names(ast):
+    return {n[1] for n in subterms(ast) if isinstance(n, tuple) and n and n[0] == 'id'} | local_names(ast)
+
+
+def has_early_return(ast):
+    """a `return` that is not in tail position: some statement of its block or of an enclosing block follows it (the loop body is never
+    a tail position)"""
+    found = []
+
+    def seq(stmts, tail):
+        for k, st in enumerate(stmts):
+            one(st, tail and k == len(stmts) - 1)
+
+    def one(st, tail):
+        if not isinstance(st, tuple) or not st:
+            return
+        if st[0] == 'return':
+            if not tail:
+                found.append(st)
+        elif st[0] in ('block', 'fbody'):
+            seq(list(st[1:]), tail)
+        elif st[0] == 'if':
+            for arm in st[2:]:
+                one(arm, tail)
+        elif st[0] == 'for':
+            one(st[4], False)
+
+    one(ast, True)
+    return bool(found)
+
+
 def redeclared_locals(ast):
     """names declared more than once anywhere in the behaviour -> {name: set of declared types}"""
     out = {}
